@@ -1,5 +1,5 @@
 import MidoModel.Tracks
-import MidoModel.Generated.Src
+import MidoModel.Generated.SrcTracks
 import MidoProofs.SrcTie.Basic
 set_option linter.unusedSimpArgs false
 /-!
